@@ -149,7 +149,7 @@ enum {
         P_MOT_R1, P_MOT_R10, P_MOT_R19, P_MOT_R21, P_MOT_R22, P_MOT_R24,
         P_BTT_R1, P_BTT_R21, P_AIT_R1, P_MPT_R1, P_MPX_R1,
         P_POP_R1, P_POP_R3, P_POP_R4, P_DRCS_R1, P_DRCS_R2,
-        P_TRIG_A, P_TRIG_B, P_TRIG_C,
+        P_TRIG_A, P_TRIG_B, P_TRIG_C, P_TRIG_D, P_TRIG_E,
         /* enhancement */
         P_X26_0, P_X26_0L, P_X26_0P, P_X26_0Q, P_X26_1, P_X26_2, P_X26_15, P_X26_BAD,
         P_X27_0, P_X27_1, P_X27_4,
@@ -309,7 +309,13 @@ static void build_packets(void)
           trigger_with_checksum(t, sizeof t, "<http://a.b>[n:C][c:10]");
           pk_row(PN(P_TRIG_B, "trigger B (EACEM deferred, checksum)"), 1, 1, t);
           trigger_with_checksum(t, sizeof t, "<http://a.b>[d:1][c:10]");
-          pk_row(PN(P_TRIG_C, "trigger C (delete)"), 1, 1, t); }
+          pk_row(PN(P_TRIG_C, "trigger C (delete)"), 1, 1, t);
+          /* countdowns far in the future: each transmission has its own fire time (now + countdown), so the list of
+           * deferred triggers only shrinks after 115 days; and a countdown whose frame count does not fit an int */
+          trigger_with_checksum(t, sizeof t, "<http://a.b>[n:D][c:9999999]");
+          pk_row(PN(P_TRIG_D, "trigger D (EACEM deferred 115 days)"), 1, 1, t);
+          trigger_with_checksum(t, sizeof t, "<http://a.b>[c:99999999]");
+          pk_row(PN(P_TRIG_E, "trigger E (EACEM countdown 99999999 s)"), 1, 1, t); }
 
         /* X/26 */
         d = PN(P_X26_0, "X/26/0 (POP object, DRCS, chars)"); pk_enh(d, 1, 26, 0);
@@ -650,12 +656,12 @@ static void do_search(int pat, int scheme)
 
 enum { LK_TTX, LK_CC, LK_CCRAW, LK_CCTEXT, LK_ITV, LK_XDS, LK_XDSEND, LK_LINE, LK_FRAME, LK_TIME, LK_CTL, LK_READ };
 typedef struct { char name[64]; int kind, a, b, c; const char *s; } letter_t;
-static letter_t LT[256];
+static letter_t LT[320];
 static int NLT, LT_TTX0, LT_CC0, LT_CC1, LT_MISC0, LT_MISC1, LT_READ0, LT_READ1;
 
 static int add_letter(int kind, int a, int b, int c, const char *s, const char *fmt, ...)
 {
-        if (NLT >= 256) harness_die("more than 256 letters");
+        if (NLT >= 320) harness_die("more than 320 letters");
         letter_t *l = &LT[NLT];
         va_list ap; va_start(ap, fmt); vsnprintf(l->name, sizeof l->name, fmt, ap); va_end(ap);
         l->kind = kind; l->a = a; l->b = b; l->c = c; l->s = s;
